@@ -780,4 +780,13 @@ theorem C15_prover_rounds (I : RangeInst F M) (hn : 0 < I.n) (v p : ℕ → ℕ)
 theorem C11_table : Generated.genTable.Nodup ∧ (0 ∉ Generated.genTable) ∧ Generated.genTable.length = 4103 :=
   GenTableThm.table_nodup
 
+open Model.Nonce Model.Transcript in
+/-- **C14 (rebuilt after every transcript update).** The histories the prover's RNG instances are forked from are
+    strictly nested: the instance built after the statement is a strict prefix of the one built after `A`, which is a
+    strict prefix of every later one — later nonces see later messages and challenges. -/
+theorem C14_rebuilt (ctx : List Event) (x : Pub) (A : Bytes) (lrs : List (Bytes × Bytes)) (a1 b : Bytes) :
+    ∃ h0 h1 rest, rngHistories ctx x A lrs a1 b = h0 :: h1 :: rest ∧ h0 <+: h1 ∧ h0.length < h1.length ∧
+      (∀ h ∈ rest, h1 <+: h ∧ h1.length < h.length) :=
+  NonceThm.rngHistories_first_two ctx x A lrs a1 b
+
 end Bpp
